@@ -184,9 +184,41 @@ Inductive jval : Type :=
 (* behaviour of json.Unmarshal on a literal: value, *json.SyntaxError, other error *)
 Inductive jres := JOk (v : jval) | JSyntaxErr | JOtherErr.
 
+(* byte-wise string order (Go's < on strings, sort.Strings) and insertion sort of an
+   association list by key; also used by [canon] below *)
+Fixpoint str_leb (a b : string) : bool :=
+  match a, b with
+  | EmptyString, _ => true
+  | String _ _, EmptyString => false
+  | String x a', String y b' =>
+      let nx := nat_of_ascii x in let ny := nat_of_ascii y in
+      if nx <? ny then true else if nx =? ny then str_leb a' b' else false
+  end.
+
+Fixpoint insert_kv {V} (kv : string * V) (l : list (string * V)) : list (string * V) :=
+  match l with
+  | [] => [kv]
+  | x :: l' => if str_leb (fst kv) (fst x) then kv :: l else x :: insert_kv kv l'
+  end.
+Definition sort_kv {V} (l : list (string * V)) : list (string * V) := fold_right insert_kv [] l.
+
 Section JSON.
 Variable mg : ty -> ty -> ty.
-Fixpoint type_of_json_gen (v : jval) : ty :=
+
+(* one round of the loop over the sorted keys of a JSON object (repaired code):
+     id := strings.ToLower(k); if p, ok := props[id]; ok { t = p.Merge(t) }; props[id] = t *)
+Definition json_put (acc : list (string * ty)) (kt : string * ty) : list (string * ty) :=
+  let id := lower (fst kt) in
+  upsert id (match lookup id acc with Some p => mg p (snd kt) | None => snd kt end) acc.
+
+(* [fold_keys]: true = the repaired code (keys visited in sorted order, lower-cased, types of
+   keys that differ only in case merged); false = the code before the repair (keys kept as
+   written: repo_patches/case/02-fix-fromjson-keys-case.patch).
+   The resulting Props is a Go map and has no order: the model lists it in key order (the outer
+   [sort_kv]), so that the result is literally the same for two spellings of the keys. *)
+Variable fold_keys : bool.
+
+Fixpoint type_of_json_gen2 (v : jval) : ty :=
   match v with
   | JNull => TNull | JBool => TBool | JNum => TNum | JStr => TStr
   | JArr es =>
@@ -194,22 +226,27 @@ Fixpoint type_of_json_gen (v : jval) : ty :=
                      match l with
                      | [] => acc
                      | e :: l' => go l' (Some (match acc with
-                                               | None => type_of_json_gen e
-                                               | Some t => mg t (type_of_json_gen e)
+                                               | None => type_of_json_gen2 e
+                                               | Some t => mg t (type_of_json_gen2 e)
                                                end))
                      end) es None with
             | Some t => t
             | None => TAny
             end) false
   | JObj ps =>
-      TObj ((fix go (l : list (string * jval)) : list (string * ty) :=
-               match l with
-               | [] => []
-               | kv :: l' => (fst kv, type_of_json_gen (snd kv)) :: go l'
-               end) ps) None
+      let tys := (fix go (l : list (string * jval)) : list (string * ty) :=
+                    match l with
+                    | [] => []
+                    | kv :: l' => (fst kv, type_of_json_gen2 (snd kv)) :: go l'
+                    end) ps in
+      TObj (if fold_keys then sort_kv (fold_left json_put (sort_kv tys) []) else tys) None
   end.
 End JSON.
+(* typeOfJSONValue as it is now, and before the repair *)
+Definition type_of_json_gen (mg : ty -> ty -> ty) : jval -> ty := type_of_json_gen2 mg true.
+Definition type_of_json_old_gen (mg : ty -> ty -> ty) : jval -> ty := type_of_json_gen2 mg false.
 Definition type_of_json := type_of_json_gen merge.
+Definition type_of_json_old := type_of_json_old_gen merge.
 
 (* ---- the `looser` relation of property C06 -------------------------------
    t ⊑ any; scalars ⊑ themselves; objects: same keys in the same order with
@@ -257,22 +294,6 @@ Definition sig_looser (s s' : fsig) : Prop :=
   fs_params s = fs_params s' /\ fs_varlen s = fs_varlen s'.
 
 (* ---- canonical form and decidable equality (for the correspondence check) -- *)
-Fixpoint str_leb (a b : string) : bool :=
-  match a, b with
-  | EmptyString, _ => true
-  | String _ _, EmptyString => false
-  | String x a', String y b' =>
-      let nx := nat_of_ascii x in let ny := nat_of_ascii y in
-      if nx <? ny then true else if nx =? ny then str_leb a' b' else false
-  end.
-
-Fixpoint insert_kv {V} (kv : string * V) (l : list (string * V)) : list (string * V) :=
-  match l with
-  | [] => [kv]
-  | x :: l' => if str_leb (fst kv) (fst x) then kv :: l else x :: insert_kv kv l'
-  end.
-Definition sort_kv {V} (l : list (string * V)) : list (string * V) := fold_right insert_kv [] l.
-
 Fixpoint canon (t : ty) : ty :=
   match t with
   | TObj ps m =>
